@@ -19,7 +19,7 @@ REPO = os.environ.get("VERIF_REPO", "/repo")
 
 def enc(s):
     o = []
-    for b in s.encode():
+    for b in (s if isinstance(s, (bytes, bytearray)) else s.encode()):
         if 0x21 <= b <= 0x7e and b not in (37, 124, 59, 44):
             o.append(chr(b))
         else:
@@ -893,6 +893,11 @@ def cli_cases(g, group, thorough):
                         "macro inner(a,b,c) -> mov a, b add a, c <-\nmacro outer(x) -> inner(x) <-\nstart:\nouter(ax)\n",
                         "macro z() -> nop <-\nstart:\nz(ax)\nz()\n", "macro one(a) -> inc a <-\nstart:\none(,)\n", "macro one(a) -> inc a <-\nstart:\none(ax,)\n"]:
             out.append(("-", special, ""))
+        # files that are not valid UTF-8 (raw bytes: the request carries them percent-encoded)
+        for raw in [b"start:\nmov ax, 1 ; \xff\xfe\nprint reg\n", b"\xff", b"start:\n\xc3", b"\xc0\xafstart:\nhlt\n", b"x: db \"\xe9\"\nstart:\n",
+                    b"start:\nmov ax, 1\n\x80\x80\x80", b"\xed\xa0\x80start:\n", b"macro m(a) -> inc a <-\nstart:\nm(\xf8)\n"]:
+            out.append(("-", raw, ""))
+            out.append(("i", raw, "n\n"))
         # the smallest programs, stepped: nothing / one instruction after `start:`
         for tiny in ["start:", "start:\n", "start: hlt", "start:\nhlt\n", "start:\nnop", "start:\nprint reg", "x: db 1\nstart:\n", "def f {\n}\nstart:\n",
                      "start:\ncall f\ndef f {\n}\n", "macro m(a) -> <-\nstart:\nm(ax)\n"]:
